@@ -333,6 +333,26 @@ pub fn check(c: &Case, rec: &mut Rec) -> Result<(), String> {
             rec.class("flash-toggle-observed");
         }
     }
+    // 128K: the screen the ULA is *not* showing must be intact too — flip the screen-select bit
+    // (nothing is rewritten) and the other bank's picture must appear
+    if machine == Machine::K128 {
+        let (latch, _, _) = e.verif_paging();
+        e.verif_set_paging((latch ^ 0x08) & !0x20);
+        let ob = if (latch ^ 0x08) & 8 != 0 { 7 } else { 5 };
+        let other_mem: Vec<u8> = e.verif_ram_page(ob)[..6912].to_vec();
+        mach::run_frames(&mut e, 2)?;
+        rec.eval();
+        let (o0, o1) = (decode(&other_mem, false), decode(&other_mem, true));
+        let px = &e.screen_buffer().px;
+        if px[..] != o0[..] && px[..] != o1[..] {
+            let pos = px.iter().zip(o0.iter()).position(|(a, b)| a != b).unwrap();
+            return Err(format!(
+                "path {:?}: after switching the display to bank {} (screen-select bit flipped, memory untouched) canvas pixel ({}, {}) shows {:#04x}; the decode of bank {} gives {:#04x}",
+                c.path, ob, pos % 256, pos / 256, px[pos], ob, o0[pos]
+            ));
+        }
+        rec.class("screen-bank-flipped-after-delivery");
+    }
     let distinct = {
         let mut s = [false; 256];
         for b in &bytes {
